@@ -181,7 +181,13 @@ impl Prop for C18 {
                     ));
                 }
             }
-            if o_alloc != o_std {
+            // alloc vs std: same acceptance, same category (checksum values included), same
+            // sentence and message; the wording of an Nmea error is not part of the property
+            let alloc_same = match (&o_std, &o_alloc) {
+                (Outcome::ErrNmea(_), Outcome::ErrNmea(_)) => true,
+                (a, b) => a == b,
+            };
+            if !alloc_same {
                 return Some(fail(
                     "alloc-differs-from-std",
                     format!("{}/{}", o_std.kind(), o_alloc.kind()),
